@@ -152,6 +152,8 @@ def monitorSync (c : SyCase) (obs : String) : String :=
     ("C07.rolling", !reached || !wf || C07 v m.cur m.upd pods acts),
     ("C14.burst", !reached || !v.parallel || !wf || v.deleting || !c.plan.isEmpty || podFaulted || o.out != "ok" || C14 v pods acts),
     ("C12.cache", C10cache o),
+    ("C07.template", fieldD obs "tplbad" == "0" || fieldD obs "tplbad" == ""),
+    ("C02.template", fieldD obs "tplbad" == "0" || fieldD obs "tplbad" == ""),
     ("C15.nopanic", o.out != "panic"),
     ("C11.paused", C11paused i o),
     ("C11.deleting", C11deleting i o),
@@ -161,11 +163,18 @@ def monitorSync (c : SyCase) (obs : String) : String :=
     ("C10.pods", i.pods.any (fun c => c.member && c.owner == .self && c.name != canonicalName i.setName c.pod.ord &&
                    i.pods.any (fun q => q.name == canonicalName i.setName c.pod.ord && q.owner != .self)) || C10pods i c.plan o),
     ("C10.revs", C10revs i o),
+    ("C10.revadopt", C10revAdopt i c.plan o),
+    ("C11.freshdeleting", C11freshDeleting i o),
     ("C10.set", C10set o),
     ("C10.cache", C10cache o),
     ("C13.history", C13 i c.plan o),
     ("C08.store", C08 c.h i o),
+    -- migration: a stored revision that records the template is re-used, nothing is created (the same predicate, read for C18)
+    ("C18.reuse", C08 c.h i o),
     ("C09.reported", C09reported i c.plan o),
+    -- every attempt of a retried status write carries the same status; nothing the sync left undone is hidden in the cache
+    ("C09.retrysame", fieldD obs "stvar" != "1"),
+    ("C09.cache", C10cache o),
     ("C12.bounds", match o.status with | some st => C12bounds st | none => true),
     ("C12.generation", match o.status with | some st => C12gen i.view i.stored st | none => true)]
 
@@ -177,7 +186,7 @@ def stepSync (cas obs : String) : String :=
     let ob := o.observe
     let stS := match o.status with | some s => showStatus s | none => "-"
     let ccS := match o.status, o.cc with | some _, some n => toString n | _, _ => "-"
-    let model := s!"log={",".intercalate ob.log} status={stS} cc={ccS} revs={";".intercalate (ob.revs.map showRevD)} out={ob.out} mut=0 creates={",".intercalate ((o.acts.take (if o.outcome == .ok || o.log.isEmpty then o.acts.length else o.acts.length)).filterMap (fun a => match a with | .create od rv => some s!"{canonicalName c.i.setName od}@{rv}" | _ => none))}"
+    let model := s!"log={",".intercalate ob.log} status={stS} cc={ccS} revs={";".intercalate (ob.revs.map showRevD)} out={ob.out} mut=0 creates={",".intercalate ((o.acts.take (if o.outcome == .ok || o.log.isEmpty then o.acts.length else o.acts.length)).filterMap (fun a => match a with | .create od rv => some s!"{canonicalName c.i.setName od}@{rv}" | _ => none))} stvar=0 tplbad=0"
     let obs' := match obs.splitOn " site=" with | o :: _ => o | [] => obs
     s!"{model}\t{monitorSync c obs'}\t{syTag c o}"
 
